@@ -68,14 +68,35 @@ def random_term(rng, names):
     return spec
 
 
-def model():
-    return Model(orbital_space(1, 1), seed=21, braket={"V": 1, "f": 1, "K": -1})
+def model(big=False):
+    # big: 4 occupied spin orbitals (antisymmetric four index blocks vanish
+    # identically with 2)
+    return Model(orbital_space(2 if big else 1, 1), seed=21, braket={"V": 1, "f": 1, "K": -1})
 
 
 # --- Term.symmetry -------------------------------------------------------------
+def permuted_assignment(asg, perms):
+    """assignment under which the ORIGINAL term has the value of the permuted
+    term: the symbol s is replaced by sigma(s) = p_n(...p_1(s)), so s takes
+    the orbital of sigma(s).  Independent of the library's permute / tensor
+    constructors."""
+    def sigma(s):
+        for x, y in perms:
+            s = y if s == x else (x if s == y else s)
+        return s
+    return {s: asg[sigma(s)] if sigma(s) in asg else asg[s] for s in asg}
+
+
 def sym_cases(tier, seed):
     rng = random.Random(seed)
     yield {"term": [["V", ["i", "j", "a", "b"], 1], ["t", ["a", "b", "i", "j"], 1]], "mode": "all"}
+    # bra-ket (anti)symmetric tensors in a diagonal block, every index order
+    import itertools
+    for kind in ("K", "V", "A"):
+        for perm in itertools.permutations(["i", "j", "k", "l"]):
+            if kind != "K" and perm[0] > perm[1]:
+                continue
+            yield {"term": [[kind, list(perm), 1], ["X", ["i"], 1]], "mode": "all"}
     for _ in range(30 if tier == "quick" else 400):
         names = rng.sample(OCC, 3) + rng.sample(VIRT, 3)
         t = random_term(rng, names)[:2]
@@ -93,7 +114,7 @@ def sym_check(case):
     term = e.terms[0]
     kw = {"all": {}, "contracted": {"only_contracted": True}, "target": {"only_target": True}}[case["mode"]]
     res = term.symmetry(**kw)
-    m = model()
+    m = model(big=sum(1 for x in term.idx if x.space == "occ") > 4)
     targets = list(term.target)
     rng = random.Random(len(str(case)))
     items = list(res.items())
@@ -102,14 +123,21 @@ def sym_check(case):
     for perms, factor in items:
         if factor not in (1, -1):
             return False, f"factor {factor} reported for {perms}"
-        permuted = Expr(term.sympy, **term.assumptions).permute(*perms)
-        # the permutation acts on the target assignment as well
-        for asg in all_assignments(targets, m.orbs, limit=6, rng=rng):
+        # permutations of contracted indices never change the value; for the
+        # target indices the permutation acts on the assignment
+        if any((x in targets) != (y in targets) for x, y in perms):
+            return False, f"symmetry of {term} mixes target and contracted indices: {perms}"
+        for asg in all_assignments(targets, m.orbs, limit=10, rng=rng):
             v0 = evaluate(term.sympy, asg, m)
-            v1 = evaluate(permuted.sympy, asg, m)
+            v1 = evaluate(term.sympy, permuted_assignment(asg, perms), m)
             if v1 != factor * v0:
                 return False, (f"symmetry of {term} reports {perms} -> {factor} but the permuted term "
-                               f"{permuted} has value {v1} vs {factor}*{v0}")
+                               f"has value {v1} vs {factor}*{v0} at {asg}")
+        # the library's own permuted term has that value as well (constructors)
+        permuted = Expr(term.sympy, **term.assumptions).permute(*perms)
+        for asg in all_assignments(targets, m.orbs, limit=4, rng=rng):
+            if evaluate(permuted.sympy, asg, m) != evaluate(term.sympy, permuted_assignment(asg, perms), m):
+                return False, f"permute{perms} of {term} gives {permuted}: wrong value at {asg}"
     return True, ""
 
 
@@ -211,6 +239,11 @@ def eps_cases(tier, seed):
         [["t", ["a", "c", "i", "k"], 1], ["t", ["b", "c", "j", "k"], 1]],
         [["Y", ["i", "j"], 1], ["Y", ["a", "b"], 1]],
     ]
+    for kind in ("K", "A"):
+        yield {"expr": "sum", "terms": [[[kind, ["i", "j", "k", "l"], 1], ["X", ["i"], 1]],
+                                        [[kind, ["i", "l", "j", "k"], 1], ["X", ["k"], 1]]], "targets": "ijkl"}
+        yield {"expr": "sum", "terms": [[[kind, ["i", "j", "k", "l"], 1], ["X", ["i"], 1]],
+                                        [[kind, ["k", "l", "i", "j"], 1], ["X", ["k"], 1]]], "targets": "ijkl"}
     for base in bases[1:]:
         for signs in ([-1, -1], [1, 1], [-1, 1]):
             yield {"expr": "custom", "base": base, "perms": [["i", "j"], ["a", "b"]], "signs": signs}
@@ -225,6 +258,14 @@ def eps_cases(tier, seed):
 def eps_check(case):
     idx = {n: get_symbols(n)[0] for n in OCC + VIRT}
     i, j, a, b = idx["i"], idx["j"], idx["a"], idx["b"]
+    if case["expr"] == "sum":
+        total = sum(build_term(t, idx) for t in case["terms"])
+        tg = [idx[n] for n in case["targets"]]
+        e = Expr(total, real=True, target_idx=tg).expand()
+        if e.sympy is S.Zero:
+            return True, "vanishes"
+        res = exploit_perm_sym(e.copy(), target_indices=case["targets"])
+        return _rebuild_check(e, res, tg)
     if case["expr"] == "ph_second_order":
         base = build_term([["V", ["i", "k", "a", "c"], 1], ["t", ["b", "c", "j", "k"], 1]], idx)
         total = base
@@ -240,16 +281,22 @@ def eps_check(case):
     if e.sympy is S.Zero:
         return True, "vanishes"
     res = exploit_perm_sym(e.copy(), target_indices="ijab")
-    m = model()
-    targets = [i, j, a, b]
-    rebuilt = S.Zero
+    return _rebuild_check(e, res, [i, j, a, b])
+
+
+def _rebuild_check(e, res, targets):
+    m = model(big=sum(1 for x in targets if x.space == "occ") > 2)
+    import random as _r
+    limit = 120 if len(m.orbs) > 4 else None
+    parts = []
     for perms, part in res.items():
         pe = part if isinstance(part, Expr) else Expr(part)
-        rebuilt += pe.sympy
-        for perm, factor in perms:
-            rebuilt += factor * Expr(pe.sympy, **pe.assumptions).permute(*perm).sympy
-    for asg in all_assignments(targets, m.orbs):
-        v0, v1 = evaluate(e.sympy, asg, m), evaluate(rebuilt, asg, m)
+        parts.append((pe.sympy, [((), 1)] + [(tuple(perm), factor) for perm, factor in perms]))
+    for asg in all_assignments(targets, m.orbs, limit=limit, rng=_r.Random(5)):
+        v0 = evaluate(e.sympy, asg, m)
+        # the operators act on the target assignment (independent of permute)
+        v1 = sum(factor * evaluate(sym, permuted_assignment(asg, perm), m)
+                 for sym, ops in parts for perm, factor in ops)
         if v0 != v1:
             return False, (f"exploit_perm_sym of {e}: applying the reported operators to the parts "
                            f"{ {k: str(v) for k, v in res.items()} } gives {v1}, expression {v0}")
